@@ -12,7 +12,7 @@ NUMS = ["MAJOR", "MINOR", "PATCH", "INC0", "INC1", "BUILD", "BLD"]
 FIXED_WIDTH = {"YYYY", "0Y", "GGGG", "0G", "0M", "0D", "00J", "0W", "0U", "0V", "Q"}
 PADDED = ("0M", "0D", "00J", "0W", "0U", "0V")
 TAG_TAILS = ["[-TAG]", "[PYTAGNUM]", "[-TAGNUM]", "[-TAG[NUM]]", "-TAG", "[.PYTAGNUM]", "[-PYTAGNUM]", "[PYTAG[NUM]]",
-             "-TAGNUM", "PYTAGNUM"]
+             "-TAGNUM", "PYTAGNUM", "[-TAG.NUM]", "[-TAG[.NUM]]", "[.TAG.NUM]", "-TAG.NUM", "[-TAG-NUM]", "[_TAG_NUM]"]
 
 
 def gen_pattern(R, decorate=True, pep_bias=False):
@@ -47,7 +47,7 @@ def gen_pattern(R, decorate=True, pep_bias=False):
     t = R.random()
     tail = ""
     if t < 0.7:
-        tail = R.choice(TAG_TAILS[:6]) if R.random() < 0.85 else R.choice(TAG_TAILS)
+        tail = R.choice(TAG_TAILS[:6]) if R.random() < 0.7 else R.choice(TAG_TAILS)
     last = parts[-1] if parts else ""
     if tail.startswith("PYTAG") or tail.startswith("[PYTAG"):
         pass  # letters directly after digits: unambiguous
